@@ -562,7 +562,8 @@ struct Op {
 //      10 self copy-assign, 11 read through Slice, 12 write through a mutable Slice,
 //      13 push_back of an element of the same vector (the argument aliases the storage that push_back
 //         may have to replace; std::vector guarantees this works), 14 the same through the rvalue
-//         overload (trivially copyable element types only, where a moved-from element keeps its value)
+//         overload (trivially copyable element types only, where a moved-from element keeps its value),
+//      15 / 16 mutable begin()/end() pair taken in either order, then a write through it
 template <typename T>
 static bool run_program(const std::vector<Op> &prog, std::string &why) {
     const int H = 2;
@@ -684,6 +685,35 @@ static bool run_program(const std::vector<Op> &prog, std::string &why) {
                     m[a]->push_back(m[a]->back());
                 }
                 break;
+            case 15:
+            case 16:
+                if (!h[a]) continue;
+                {
+                    // the mutable iterator pair of a (possibly shared) vector, end() taken before begin()
+                    // (15: what `f(v.begin(), v.end())` does when arguments are evaluated right to left) or
+                    // after it (16): both must point into the same, unshared storage; a write through them
+                    // may only change this handle
+                    resolvo::Vector<T> &v = *h[a];
+                    T *b, *e;
+                    if (op.kind == 15) {
+                        e = v.end();
+                        b = v.begin();
+                    } else {
+                        b = v.begin();
+                        e = v.end();
+                    }
+                    if (static_cast<size_t>(e - b) != m[a]->size() || b != v.cbegin() || e != v.cend()) {
+                        why = "begin()/end() do not delimit the elements of the vector";
+                        return false;
+                    }
+                    if (b != e) {
+                        T *w = op.kind == 15 ? e - 1 : b;
+                        *w = Elem<T>::make(fresh);
+                        (*m[a])[op.kind == 15 ? m[a]->size() - 1 : 0] = fresh;
+                        ++fresh;
+                    }
+                }
+                break;
             default:
                 break;
         }
@@ -717,6 +747,8 @@ static void run_containers(const char *tname, int depth) {
         alphabet.push_back({12, a, 0});
         alphabet.push_back({13, a, 0});
         if (std::is_trivially_copyable_v<T>) alphabet.push_back({14, a, 0});
+        alphabet.push_back({15, a, 0});
+        alphabet.push_back({16, a, 0});
     }
     const size_t A = alphabet.size();
     uint64_t total = 1;
